@@ -7,6 +7,8 @@ import (
 	"flag"
 	"fmt"
 	"os"
+	"runtime/pprof"
+	"time"
 
 	"verifharness/internal/vf"
 	"verifharness/props"
@@ -29,6 +31,17 @@ func main() {
 	}
 	r := vf.NewRunner(*prop, *tier, *seed, *batch, *nbatch, *journal)
 	r.Replay = *replay
+	if p := os.Getenv("VERIF_CPUPROFILE"); p != "" {
+		f, _ := os.Create(p)
+		pprof.StartCPUProfile(f)
+		defer pprof.StopCPUProfile()
+	}
+	t0 := time.Now()
+	defer func() {
+		if os.Getenv("VERIF_TIMING") != "" {
+			fmt.Fprintf(os.Stderr, "total %v\n", time.Since(t0))
+		}
+	}()
 	props.Setup()
 	fn(r)
 	r.Finish(*out)
